@@ -679,6 +679,20 @@ func %[1]sArrayToPQ(ids []%[1]s) pq.Int64Array {
 			if e == "uint8" && fixed > 0 && o.gated("fixed_byte_array_column") {
 				e = "int32"
 			}
+			if rapid.IntRange(0, 5).Draw(t, "arrOfNamedBasic") == 0 {
+				// a list of a named basic type that is not an enum (ID types): stored as jsonb, not as an SQL array
+				var ids []string
+				for _, ot := range sg.tables {
+					if ot.idType != "" && ot.idType != "int64" {
+						ids = append(ids, ot.idType)
+					}
+				}
+				if len(ids) > 0 {
+					e = ids[rapid.IntRange(0, len(ids)-1).Draw(t, "arrOfNamedBasicType")]
+					hasJSON = true
+					o.class("sql:list_of_named_basic_is_jsonb")
+				}
+			}
 			f.Type = sg.local(sg.ensureArray(e, fixed))
 		case "enumint":
 			f.Type = sg.local(sg.ensureEnum(false))
